@@ -280,21 +280,10 @@ TrimNow(T, e, j) ==
                  ELSE MgrAppend(st[j], RawSlice(T, e.a, e.b), nolife)
      IN full.ok /\ Len(full.cs) > e.m[j].len
 
-\* first position of the post-state whose candle is not an unchanged survivor of the pre-state
-\* (new candles, and a forming bucket that was merged into again)
-FirstNew(pre, postj, drop) ==
-  LET S == {p \in 1..Len(postj) : p + drop > Len(pre) \/ Shell(pre[p + drop]) # Shell(postj[p])}
-  IN IF S = {} THEN Len(postj) + 1 ELSE CHOOSE p \in S : \A p2 \in S : p <= p2
-
-\* the property's own wording: each newly added candle has its look-back inside the window that
-\* survives -- Look(c) survivors in front of the first new candle, the last of them warmed up
+\* the property's own wording (Engine!SurvOK): Look(c) survivors in front of the first new candle,
+\* the last of them warmed up
 SurvivorsOK(T, e, post, j, n) ==
-  LET pre == st[j]
-      f   == FirstNew(pre, post[j], e.m[j].drop)
-  IN \/ f > Len(post[j])
-     \/ /\ f >= 2 /\ f - 1 >= Look(T.ind[n])
-        /\ f - 1 + e.m[j].drop <= Len(pre)
-        /\ WarmedOn(T.ind[n], pre[f - 1 + e.m[j].drop])
+  LET mid == MidOf(T, e, j) IN mid.ok /\ SurvOK(T.ind[n], st[j], mid.cs, e.m[j].drop)
 
 LookbackOK(T, e, post) ==
   \A j \in 1..Len(T.mg) :
